@@ -3,8 +3,8 @@ from ..codec import Rng, expand, spec_len
 from .. import oracle as o
 
 ID = 'C12'
-RULE = ('one record per (scalar, u) through curve25519 / curve25519_base / x25519::dh / x25519::base; result must equal the RFC 7748 ladder on Python integers; '
-        'scalars: random, 0, all-ones, all 256 single-bit scalars, clamp-edge patterns; u: random, 0, 1, 2, 9, p-1, p, p+1, 2^255-20.., 2^255-1, 2^256-1, small-order '
+RULE = ('one record per (scalar, u) through curve25519 / curve25519_base / x25519::dh / x25519::base (SecretKey and PublicKey built both by From<[u8; 32]> and by TryFrom<&[u8]>, all four combinations); result must equal the RFC 7748 ladder on Python integers; '
+        'scalars: random, 0, all-ones, all 256 single-bit scalars, clamp-edge patterns; u: random, 0, 1, 2, 9, p-1, p, every alias p+1..p+18 with and without bit 255, 2^255-20.., 2^255-1, 2^256-1, small-order '
         'values and their bit-255 aliases, random with bit 255 set; base(k) == dh(k, 9); both parties of random exchanges; public keys crafted (inverse scalar on the prime-order subgroup of curve or twist) so that the shared secret is a chosen small / limb-boundary / near-p value; RFC 7748 iteration; '
         'distinct = (entry point, scalar class, u class)')
 ASSUMPTIONS = ['bulk phase: the force-32bits backend serves as a second implementation for locating rare disagreements; a disagreement is reported only when the Python model shows the default build wrong, and sampled outputs are always checked against the Python model', 'Python-int Montgomery ladder pinned by RFC 7748 5.2 vectors']
@@ -62,6 +62,9 @@ def u_values(rng):
     for i, v in enumerate(SMALL):
         out.append(('small-order/%d' % i, le(v)))
         out.append(('small-order-bit255/%d' % i, le(v | (1 << 255))))
+    for d in range(2, 19):       # every non-canonical alias p + d that fits below 2^255, with and without bit 255
+        out.append(('p+d/%d' % d, le(P + d)))
+        out.append(('p+d-bit255/%d' % d, le((P + d) | (1 << 255))))
     for name, v in (('two', 2), ('nine', 9), ('p-2', P - 2), ('p+2', P + 2), ('2^255-20', 2 ** 255 - 20), ('2^255-1', 2 ** 255 - 1), ('2^255', 2 ** 255),
                     ('2^256-1', 2 ** 256 - 1), ('2^256-19', 2 ** 256 - 19), ('2^51', 2 ** 51), ('2^51-1', 2 ** 51 - 1), ('2^204', 2 ** 204)):
         out.append((name, le(v)))
@@ -82,6 +85,12 @@ def gen(tier, seed):
     for sc, k in scalars:
         for uc, u in us:
             yield 'x25519 %s %s #%s|%s' % (k, u, sc.split('/')[0], uc)
+            # the x25519 module, with every combination of the two ways to construct SecretKey / PublicKey
+            if uc.split('/')[0] != 'p+d-bit255' or sc in ('ones', 'rnd/0'):
+                yield 'x_dhc %s %s %s #%s|%s|module' % (k, u, rng.choice(['aa', 'as', 'sa', 'ss']) if uc.startswith('p+d') else ['aa', 'as', 'sa', 'ss'][(len(uc) + len(sc)) % 4], sc.split('/')[0], uc)
+        for cc in ('aa', 'as', 'sa', 'ss'):
+            yield 'x_dhc %s %s %s #%s|rnd-cons|module' % (k, rng.bytes(32).hex(), cc, sc.split('/')[0])
+            yield 'x_dhc %s %s %s #%s|p+d-cons|module' % (k, le(P + rng.rng(1, 18)), cc, sc.split('/')[0])
         yield 'x25519_base %s #%s|base' % (k, sc.split('/')[0])
         yield 'x_base %s #%s|base' % (k, sc.split('/')[0])
         yield 'x25519 %s %s #%s|nine' % (k, le(9), sc.split('/')[0])
@@ -126,7 +135,9 @@ def check(line, toks):
     body, _, cls = line.partition(' #')
     f = body.split()
     op = f[0]
-    if op in ('x25519', 'x_dh'):
+    if op == 'x_dhc':
+        exp = [o.x25519(expand(f[1]), expand(f[2])).hex(), o.x25519(expand(f[1]), (9).to_bytes(32, 'little')).hex()]
+    elif op in ('x25519', 'x_dh'):
         exp = [o.x25519(expand(f[1]), expand(f[2])).hex()]
     elif op in ('x25519_base', 'x_base'):
         exp = [o.x25519(expand(f[1]), (9).to_bytes(32, 'little')).hex()]
@@ -153,8 +164,11 @@ def classify(line):
 
 def coverage(line, toks):
     cls = line.partition(' #')[2]
-    sc, uc = cls.split('|')
-    return ['scalar:' + sc.split('/')[0], 'u:' + uc.split('/')[0]]
+    sc, uc = cls.split('|')[:2]
+    out = ['scalar:' + sc.split('/')[0], 'u:' + uc.split('/')[0]]
+    if line.startswith('x_dhc'):
+        out.append('x25519-module:constructors=' + line.split(' #')[0].split()[3])
+    return out
 
 
 def san_subset(lines):
